@@ -152,7 +152,7 @@ def run_interleave(case):
             f = {"epsremove": lambda: m.epsremove, "reverse": lambda: m.reverse, "trim": lambda: m.trim, "renumber": lambda: m.renumber, "to_bytes": m.to_bytes, "star": m.star, "A+A": lambda: m + m}[o]
             return tab(_call(f))
 
-        res = eh.explore_interleaved(make, list(range(len(pool))), queries, apply_builder, apply_query, lambda a, b: a == b, depth=4 if TIER != "thorough" else 5, max_queries=2)
+        res = eh.explore_interleaved(make, list(range(len(pool))), queries, apply_builder, apply_query, lambda a, b: a == b, depth=4, max_queries=2 if TIER != "thorough" else 3)
         total["histories"] += res["histories"]
         total["transitions"] += res["transitions"]
         seen = set()
